@@ -213,3 +213,30 @@ Definition dec_policy : parser policy := fun b =>
 Definition cap_from_raw (WRITE READ kind : N) (b : bytes) : option (bool * bytes) :=
   if kind =? WRITE then Some (true, b) else if kind =? READ then Some (false, b) else None.
 Definition cap_raw (WRITE READ : N) (c : bool * bytes) : N * bytes := (if fst c then WRITE else READ, snd c).
+
+(** ---- keys.rs: the text form of author and namespace keys: 64 hex digits (either case) of the
+         32 key bytes ([hex::decode_to_slice] into a 32-byte array: any other length, an odd length
+         or a character that is no hex digit is an error) ---- *)
+Definition hex_val (c : N) : option N :=
+  if (48 <=? c) && (c <=? 57) then Some (c - 48)
+  else if (97 <=? c) && (c <=? 102) then Some (c - 87)
+  else if (65 <=? c) && (c <=? 70) then Some (c - 55)
+  else None.
+Fixpoint hex_decode (l : bytes) : option bytes :=
+  match l with
+  | [] => Some []
+  | [_] => None
+  | a :: b :: r =>
+      match hex_val a, hex_val b, hex_decode r with
+      | Some x, Some y, Some t => Some (16 * x + y :: t)
+      | _, _, _ => None
+      end
+  end.
+Definition key_of_text (t : bytes) : option bytes :=
+  match hex_decode t with
+  | Some b => if Nat.eqb (length b) 32 then Some b else None
+  | None => None
+  end.
+(** [hex::encode]: two lower-case digits per byte *)
+Definition hex_digit (d : N) : N := if d <? 10 then 48 + d else 87 + d.
+Definition hex_encode (b : bytes) : bytes := flat_map (fun x => [hex_digit (x / 16); hex_digit (x mod 16)]) b.
